@@ -137,7 +137,7 @@ class Engine:
         if not s.prune:
             return True
         sol = z3.Solver()
-        sol.set(timeout=300)
+        sol.set("rlimit", 1000000)  # deterministic resource limit (not wall time): the explored path set must not depend on machine load
         for c in p.pc:
             if not _has_quantifier(c):
                 sol.add(c)
@@ -147,7 +147,7 @@ class Engine:
             return False
         if any(_has_quantifier(c) for c in p.pc) or s.axioms:
             full = z3.Solver()
-            full.set(timeout=250)
+            full.set("rlimit", 300000)
             full.add(*s.axioms)
             full.add(*p.pc)
             if full.check() == z3.unsat:
